@@ -406,20 +406,20 @@ def step (H : Hashes) (dirLen : Nat) (s : State) : Op → State × Resp
     else match objPath b k with
       | .error e => (s, .err e)
       | .ok (bd, p) =>
-        if !checksOk H c cks then (s, .err .BadDigest)
+        -- 4f3e079: `check_side_file_names`: the metadata / checksum files of the object must be nameable — refused
+        -- before the temporary file is created (before, the object file was written and the request then failed with
+        -- `InternalError` at the first side file)
+        if sideTooLong b k false then (s, .err .KeyTooLongError)
+        else if !checksOk H c cks then (s, .err .BadDigest)
         else
           let (s1, ok) := s.commitFile bd p c
           if !ok then (s1, .err .InternalError)
           else
             -- `save_metadata` when the request carries metadata, else the old metadata file is removed (b01fec8)
-            let r2 : Option State := match md with
-              | none => some (if sideTooLong b k false then s1 else { s1 with metas := alErase (b, k) s1.metas })
-              | some m => if sideTooLong b k false then none else some { s1 with metas := alInsert (b, k) (.good m) s1.metas }
-            match r2 with
-            | none => (s1, .err .InternalError)
-            | some s2 =>
-              if sideTooLong b k false then (s2, .err .InternalError)
-              else ({ s2 with infos := alInsert (b, k) cks s2.infos }, .put (some (etagOf H c)) cks)
+            let s2 : State := match md with
+              | none => { s1 with metas := alErase (b, k) s1.metas }
+              | some m => { s1 with metas := alInsert (b, k) (.good m) s1.metas }
+            ({ s2 with infos := alInsert (b, k) cks s2.infos }, .put (some (etagOf H c)) cks)
   | .getObject b k range =>
     match objPath b k with
     | .error e => (s, .err e)
